@@ -129,6 +129,8 @@ OPNMIDI_EXPORT int opn2_reserveBanks(OPN2_MIDIPlayer *device, unsigned banks)
     MidiPlayer *play = GET_MIDI_PLAYER(device);
     assert(play);
     Synth::BankMap &map = play->m_synth->m_insBanks;
+    if(banks > 2u * 128u * 128u) // More than the whole key space (percussive, MSB, LSB) can't be used
+        banks = 2u * 128u * 128u;
     map.reserve(banks);
     return (int)map.capacity();
 }
